@@ -9,7 +9,8 @@ CONSTANTS MaxN,        \* nonces 0..MaxN
           MaxBlocks,   \* blocks besides genesis
           MaxInc,      \* transactions per account a block may include
           NBal,        \* balance choices a block may set for a transactor
-          NTips, Cap, HistLen, Crash
+          NTips, Cap, HistLen, Crash,
+          Foreign      \* TRUE: blocks may include transactions the pool never saw
 
 VARIABLES act, hist, ghosts, lghosts     \* ghosts: deleted store / limbo entries that may still be on disk
 
@@ -36,7 +37,7 @@ Cfg == [cap |-> Cap, bump |-> 100]
 
 MCInit == /\ cfg = Cfg
           /\ blocks = (0 :> Genesis)
-          /\ head = 0 /\ final = 0 /\ owed = {}
+          /\ head = 0 /\ final = 0 /\ owed = {} /\ stale = {} /\ misaligned = {}
           /\ pool = InitPool([nonce |-> Genesis.nonce, bal |-> Genesis.bal], HeadBfj, HeadBlj)
           /\ last = [op |-> "init", err |-> "ok"]
           /\ act = [op |-> "init"]
@@ -44,7 +45,7 @@ MCInit == /\ cfg = Cfg
           /\ hist = << [act |-> [op |-> "init", cfg |-> Cfg, genesis |-> Genesis, tip |-> 1], err |-> "ok"] >>
 
 BlockTxs == UNION {Range(blocks[b].txs) : b \in DOMAIN blocks}
-KnownAt(a, n) == {t \in {e.tx : e \in AllEntries(pool.idx)} \cup BlockTxs : t.from = a /\ t.nonce = n}
+KnownAt(a, n) == {t \in (IF Foreign THEN TxU ELSE {e.tx : e \in AllEntries(pool.idx)} \cup BlockTxs) : t.from = a /\ t.nonce = n}
 RECURSIVE Runs(_, _, _)
 Runs(a, n, k) == IF k = 0 THEN {<<>>} ELSE {<<t>> \o r : t \in KnownAt(a, n), r \in Runs(a, n + 1, k - 1)}
 IncSeqs(p, a) == UNION {Runs(a, blocks[p].nonce[a], k) : k \in 0..MaxInc}
@@ -75,18 +76,18 @@ Finals(B, new) == {n \in final..B[new].num : TRUE}
 Deleted(P, Q)  == AllEntries(P.idx) \ AllEntries(Q.idx)
 
 MCNext ==
-  \/ \E tx \in TxU : Add(tx, <<>>) /\ act' = [op |-> "add", tx |-> tx]
+  \/ \E tx \in TxU : Add(tx, NoHint) /\ act' = [op |-> "add", tx |-> tx]
   \/ /\ Cardinality(DOMAIN blocks) <= MaxBlocks
      /\ \E b \in NewBlocks : \E fin \in Finals(blocks @@ (Cardinality(DOMAIN blocks) :> b), Cardinality(DOMAIN blocks)) :
           LET id == Cardinality(DOMAIN blocks) IN
-          Reset(id, blocks @@ (id :> b), fin, <<>>) /\ act' = [op |-> "reset", id |-> id, block |-> b, final |-> fin]
+          Reset(id, blocks @@ (id :> b), fin, NoHint) /\ act' = [op |-> "reset", id |-> id, block |-> b, final |-> fin]
   \/ \E id \in DOMAIN blocks \ {head} : \E fin \in Finals(blocks, id) :
-          Reset(id, blocks, fin, <<>>) /\ act' = [op |-> "reset", id |-> id, block |-> blocks[id], final |-> fin]
+          Reset(id, blocks, fin, NoHint) /\ act' = [op |-> "reset", id |-> id, block |-> blocks[id], final |-> fin]
   \/ \E i \in 1..NTips : SetGasTip(TipTable[i]) /\ act' = [op |-> "settip", tip |-> TipTable[i]]
-  \/ Reopen(<<>>) /\ act' = [op |-> "reopen"]
+  \/ Reopen(NoHint) /\ act' = [op |-> "reopen"]
   \/ /\ Crash
      /\ \E g \in SUBSET ghosts : \E lg \in SUBSET lghosts :
-          /\ CrashReopen(PoolTxs(pool) \cup {e.tx : e \in g}, LimboTxs(pool) \cup {[tx |-> x.tx, block |-> x.block] : x \in lg}, <<>>)
+          /\ CrashReopen(PoolTxs(pool) \cup {e.tx : e \in g}, LimboTxs(pool) \cup {[tx |-> x.tx, block |-> x.block] : x \in lg}, NoHint)
           /\ act' = [op |-> "crash"]
 
 (* deleted entries stay on disk until their slot is reused or the pool is closed cleanly *)
@@ -98,6 +99,15 @@ MCStep == /\ MCNext
                         ELSE {e \in lghosts \cup (pool.limbo \ pool'.limbo) : e.id \notin {x.id : x \in pool'.limbo}}
 MCSpec == MCInit /\ [][MCStep]_<<vars, act, hist, ghosts, lghosts>>
 
-View == <<pool, blocks, head, final, owed, ghosts, lghosts>>
+View == <<pool, blocks, head, final, owed, stale, misaligned, ghosts, lghosts>>
 Emit == IF Len(hist) = HistLen + 1 THEN PrintT(<<"MBT", ToJson(hist)>>) ELSE TRUE
+(* TODO-KNOWN-FINDING C42-limbo-stale-block: witnesses of the strict retention property failing on *)
+(* the model; replayed on the real pool                                                             *)
+WitnessLimbo == LimboRetainsStrict \/ PrintT(<<"LIMBO", ToJson(hist)>>)
+NoLimboWitnessYet == LimboRetainsStrict
+(* TODO-KNOWN-FINDING C42-recheck-gap-after-overlap: witnesses of the strict contiguity property failing *)
+WitnessGap == NonceContiguousStrict \/ PrintT(<<"NGAP", ToJson(hist)>>)
+NoGapWitnessYet == NonceContiguousStrict
+(* witnesses are searched among short behaviours only *)
+Short == Len(hist) <= 6
 =============================================================================
